@@ -16,7 +16,11 @@ RULE = ("one PRNG (VERIF_SEED). A case = (initial Root value, reader chains, his
         "store — structs, Option, Vec, keyed Vec, depth up to 6 — then a write through every writable "
         "path in turn, so every (written path, read path) pair is exercised; readers of collections either "
         "read them whole or iterate with iter_unkeyed / the keyed iterator; any field on a chain may be handed "
-        "on as a type-erased ArcField / Field), random (random reader "
+        "on as a type-erased ArcField / Field, a chain may start from the ArcStore handle, a Box field is "
+        "followed with deref_field; every reader is one of Effect::new / ImmediateEffect / RenderEffect / Memo read by "
+        "an Effect / Effect::new_isomorphic and reads through one of try_read / try_get / try_with / track + "
+        "untracked read / track_field + reader / iterate / OptionStoreExt::map / invert, the closures reading "
+        "the inner value untracked), random (random reader "
         "subsets in random creation order, histories mixing set / patch / poke at random reachable paths, "
         "Option and Vec becoming empty and populated again, non-FIFO schedules), keyed (histories of "
         "insert / remove / reorder through the keyed field's own write guard with readers on items and "
@@ -31,7 +35,8 @@ TRUSTED = [
     "extraction to OCaml with ExtrOcamlBasic only, ocamlfind ocamlopt 4.13.1, extract/driver.ml sexp I/O",
     "harness/stores (Rust): fixed #[derive(Store, Patch)] shapes Root/Mid/Sub/Item/Leaf, a type-erased accessor "
     "layer over the public API (field getters, OptionStoreExt::unwrap, StoreFieldIterator::at_unkeyed, AtKeyed::new, "
-    "ArcField::from, Field::from, Read::try_read, Write::try_write, Patch::patch, StoreField::path), one Effect::new per reader, a FIFO/"
+    "ArcField::from, Field::from, ArcStore / Store::from, DerefField::deref_field, OptionStoreExt::{map, invert}, "
+    "Get / With / Track / StoreField::{track_field, reader}, Read::try_read, Write::try_write, Patch::patch, StoreField::path), one Effect::new per reader, a FIFO/"
     "scheduled single-threaded executor installed with Executor::init_local_custom_executor",
     "modelled, not verified (Store/Sim.v, compared with the real crates on every case): reactive_graph's ArcTrigger "
     "subscriber set (ordered Vec, emptied by notify), Effect re-run/clear_sources/re-subscribe, channel wake-up; "
@@ -44,6 +49,9 @@ ASSUMPTIONS = [
     "(KeyedSubfield::write, which calls update_keys); writes through ancestors keep its key sequence "
     "(otherwise: open finding F-C16-e, exercised by the separate family keyed-ancestor); "
     "an item written through AtKeyed keeps its key; keys within one collection are distinct",
+    "with a Memo-backed reader in a case the schedule is FIFO (the effect behind a memo is polled a second time when "
+    "the memo's value changed, which would shift a scheduled order); order between an ImmediateEffect and a scheduled "
+    "reader is not compared (the former always runs inside the notification)",
     "effects run on a single-threaded executor that drains all woken effects between two writes; 'woken before' "
     "is observed as the order of first wake-ups at the executor (all schedules) and as run order (FIFO schedule); "
     "'readers of ancestors before readers of descendants' is demanded for every pair of notified readers whose paths "
@@ -1126,8 +1134,10 @@ LEVEL_TEXT = ("Coq proofs (21+ theorems, no axioms). Paths, any depth: a write t
               "replayed values, wake order).")
 LEVEL_NOTE = ("Trusted: Coq kernel, ExtrOcamlBasic extraction + OCaml driver, the Rust harness (fixed derive(Store) "
               "shapes, own executor); modelled not verified: reactive_graph's trigger subscriber sets and effect "
-              "re-subscription, compared on every case. Four defects repaired (F-C16-a..d); one open (F-C16-e: keys of a "
-              "keyed collection go stale when it is restructured through an ancestor's write guard) — stated as "
-              "_refuted / _except_known. Box/deref fields, enums and the arena-allocated Field wrapper (a handle to an ArcField) "
-              "are not exercised. No axioms.")
+              "re-subscription, compared on every case. Seven defects repaired (F-C16-a..d, f, h, i); two open (F-C16-e: "
+              "keys of a keyed collection go stale when it is restructured through an ancestor's write guard; F-C16-g: two "
+              "readers strictly below the written field are woken in subscription order) — stated as _refuted / "
+              "_except_known. The invariant / end-to-end theorems cover executor-scheduled readers (Effect, Memo, "
+              "isomorphic Effect); ImmediateEffect and RenderEffect readers are covered by the correspondence check only. "
+              "Enum variant accessors, Signal::from(subfield), reverse iteration and map_untracked are not exercised. No axioms.")
 TECHNIQUE = "Coq proof (induction over paths; invariants over all key histories, visiting orders, schedules and write histories) + differential correspondence of the extracted model with the Rust code"
